@@ -43,8 +43,9 @@ ASSUMPTIONS = [
     "point (requests from the peer, i.e. nested dispatch inside serve(), are C08/C01's subject)",
     "Connection.close() is one atomic step (marks closed, spends one seq on HANDLE_CLOSE, closes the channel, clears the "
     "callbacks table); transport errors other than end-of-stream are C11's subject",
-    "serve(wait_for_lock=False) (Connection.poll) is not part of the model: AsyncResult.wait and BgServingThread use "
-    "wait_for_lock=True",
+    "three thread kinds: callers (AsyncResult.wait: serve(ttl)), BgServingThread (serve(0) loop) and polling threads "
+    "(conn.poll_all(d) / AsyncResult.ready: serve(timeout, wait_for_lock=False)); a poll_all that spins on a taken "
+    "receive lock is parked by the harness until another thread acts or time passes (stuttering)",
     "BgServingThread's sleep is an abstract always-enabled step in the model (any sleep duration)",
     "a caller blocked after its reply was processed (C14 / F3) is not a C13 failure: no data is pending then",
 ]
@@ -75,7 +76,23 @@ CONFIGS = {
     "1c+bg-eof": dict(clients=[[5]], bg=True, eof=True),
     "2c+bg-eof-tick": dict(clients=[[4, 3], [None]], bg=True, eof=True, early_tick=True),
     "3c-eof": dict(clients=[[3], [None], [5]], bg=False, eof=True, exc=[1]),
+    # polling threads: conn.poll_all(d) / AsyncResult.ready = serve(timeout, wait_for_lock=False)
+    "1c+poller": dict(clients=[[None]], pollers=[[0]]),
+    "1c+poller-ready": dict(clients=[[5]], pollers=[["ready", 1]]),
+    "2c+poller": dict(clients=[[None], [5]], pollers=[["ready"]]),
+    "2c+poller+bg-eof": dict(clients=[[None], [4]], pollers=[[0, "ready", 2]], bg=True, eof=True),
+    "1c+2pollers-tick": dict(clients=[[3, None]], pollers=[[1, 0], ["ready", "ready"]], early_tick=True),
 }
+
+# directed schedules with a polling thread as the receiver: the poller holds the receive lock while a caller
+# (no expiry) fails the try-lock and parks on the condition; the poller's poll times out / receives a reply
+POLLER_SCRIPTS = [
+    ("1c+poller", [("run", 2, "s3"), ("block", 1), ("block", 2), ("peer", 0)]),
+    ("1c+poller", [("run", 2, "s3"), ("block", 1), ("peer", 0), ("block", 2)]),
+    ("1c+poller", [("run", 1, "c2"), ("peer", 0), ("run", 2, "n2"), ("block", 1), ("block", 2)]),
+    ("2c+poller", [("run", 3, "s3"), ("block", 1), ("block", 2), ("peer", 1), ("block", 3), ("peer", 0)]),
+    ("2c+poller", [("run", 3, "s3"), ("block", 1), ("run", 2, "c3"), ("peer", 1), ("block", 3), ("block", 2), ("peer", 0)]),
+]
 
 # directed end-of-stream schedules: one thread in poll(), the other parked on the condition (no expiry), then EOF;
 # EOF before anybody serves; EOF while a reply is unread; EOF between a caller's send and its wait
@@ -187,10 +204,15 @@ def correspondence(ctx):
         for name, script in EOF_SCRIPTS:
             ch = ss.DirectedChooser(script)
             col(ss.run_case(dict(CONFIGS[name]), ch, env))
+        for name, script in POLLER_SCRIPTS:
+            ch = ss.DirectedChooser(script)
+            col(ss.run_case(dict(CONFIGS[name]), ch, env))
         col.flush()
         # the -eof configurations contain every schedule of the plain ones (the peer need not close the stream)
-        plan = ctx.budget([("1c+bg-eof", 1, 500, 0.2), ("2c-eof", 1, 3000, 0.62)],
-                          [("1c+bg-eof", 2, 30000, 0.12), ("2c-eof", 1, 10000, 0.2), ("2c", 2, 200000, 0.45),
+        plan = ctx.budget([("1c+bg-eof", 1, 500, 0.2), ("1c+poller", 2, 1500, 0.25), ("2c-eof", 1, 3000, 0.6),
+                           ("2c+poller", 1, 700, 0.45)],
+                          [("1c+bg-eof", 2, 30000, 0.1), ("1c+poller", 2, 5000, 0.1), ("1c+poller-ready", 2, 20000, 0.1),
+                           ("2c-eof", 1, 10000, 0.15), ("2c+poller", 1, 40000, 0.35), ("2c", 2, 200000, 0.45),
                            ("2c+bg", 1, 60000, 0.4), ("2c-eof", 2, 100000, 0.5), ("3c", 1, 60000, 0.5)])
         for name, bound, cap, frac in plan:
             col = Collector(ctx, c, name + "/dfs%d" % bound)
@@ -201,7 +223,7 @@ def correspondence(ctx):
             ctx.log("dfs %s bound %d: %d schedules, complete=%s" % (name, bound, n, complete))
         # 2. seeded random schedules (preemption bound 2 in the quick tier, 3 in the thorough tier, plus unbounded walks)
         names = sorted(CONFIGS)
-        n_rand = ctx.budget(1500, 40000)
+        n_rand = ctx.budget(1000, 40000)
         col = None
         k = 0
         while k < n_rand and time.time() < t_end:
@@ -296,6 +318,15 @@ def oracle_search(ctx, corr, broken):
                 return f
     # 2. the directed end-of-stream schedules
     for name, script in EOF_SCRIPTS:
+        try:
+            run = ss.run_case(dict(CONFIGS[name]), ss.DirectedChooser(script), env)
+        except ss.HarnessError:
+            continue
+        if [v for v in ss.c13_violations(run) if v[0] not in known]:
+            f = examine(dict(CONFIGS[name]), [c for (c, _o, _c) in run.choices], False)
+            if f:
+                return f
+    for name, script in POLLER_SCRIPTS:
         try:
             run = ss.run_case(dict(CONFIGS[name]), ss.DirectedChooser(script), env)
         except ss.HarnessError:
